@@ -8,7 +8,7 @@
  *   -DFN=1 cfg_getopt  2 cfg_getsec  3 cfg_rmsec  4 cfg_setint/cfg_getint
  *
  * Tree: root { i (int)  s (single section)  m (multi section x2)  t (titled multi section x2: "p","q") },
- *       every section instance { a (int, 7)  z (string) }.
+ *       every section instance { a (int, 7)  z (string) }, s additionally { n (single section) }.
  */
 #include <stdio.h>
 #include <stdlib.h>
@@ -73,7 +73,7 @@ static char nondet_char_or_replay(int i)
 
 static cfg_t root;
 static cfg_opt_t *ropts;
-static cfg_t *sec_s, *sec_m[2], *sec_t[2];
+static cfg_t *sec_s, *sec_n, *sec_m[2], *sec_t[2];
 static char vin_path[PLEN + 1];
 
 /* ---- reference: stepwise navigation ---- */
@@ -232,6 +232,17 @@ static cfg_opt_t *mk_root(void)
 	init_opt(&o[1], "s", CFGT_SEC, CFGF_DEFINIT);
 	alloc_values(&o[1], 1);
 	sec_s = o[1].values[0]->section = mk_section2("s", NULL, CTXF);
+	{
+		/* s additionally holds a nested single section n { a z } (two section steps in one path) */
+		cfg_opt_t *o3 = alloc_opts(3);
+
+		o3[0] = sec_s->opts[0];
+		o3[1] = sec_s->opts[1];
+		init_opt(&o3[2], "n", CFGT_SEC, CFGF_DEFINIT);
+		alloc_values(&o3[2], 1);
+		sec_n = o3[2].values[0]->section = mk_section2("n", NULL, CTXF);
+		sec_s->opts = o3;
+	}
 	init_opt(&o[2], "m", CFGT_SEC, CFGF_MULTI);
 	alloc_values(&o[2], 2);
 	for (k = 0; k < 2; k++)
